@@ -58,7 +58,7 @@ theorem idxOf_of_getElem? {l : List Nat} {k v : Nat} (hn : l.Nodup) (h : l[k]? =
 
 /-- the scan cursor one slot further -/
 theorem prevRel_succ (s : Slots) (v p : Nat) :
-    prevRel s v (p + 1) = if occV s v p then some (relAt s v p) else prevRel s v p := by
+    prevRel s v (p + 1) = if occVAt s v p then some (relAt s v p) else prevRel s v p := by
   unfold prevRel
   rw [prevOcc_succ]
   split <;> rfl
@@ -74,8 +74,8 @@ theorem advance_scan (nv : Nat) (nb : Option Nat) (s : Slots) (p u : Nat) (hwf :
   | none =>
     simp only []
     unfold cursorByScan
-    have hoccf : occ s p = false := occ_false_of_slotAt hsp
-    have hvf : ∀ v, occV s v p = false := by intro v; unfold occV; rw [hsp]
+    have hoccf : occAt s p = false := occ_false_of_slotAt hsp
+    have hvf : ∀ v, occVAt s v p = false := by intro v; unfold occVAt; rw [hsp]
     simp only [prevOcc_succ, hoccf, prevRel_succ, hvf]
     rfl
   | some op =>
@@ -83,7 +83,7 @@ theorem advance_scan (nv : Nat) (nb : Option Nat) (s : Slots) (p u : Nat) (hwf :
     obtain ⟨_, hnodup, hlt, _⟩ := hwf p op hsp
     -- invariant of the loop
     let I : List Nat → Cursor → Prop := fun D a =>
-      a.lastP = prevOcc (occ s) p ∧ a.subvarMapping = none ∧ a.unfilled = u ∧
+      a.lastP = prevOcc (occAt s) p ∧ a.subvarMapping = none ∧ a.unfilled = u ∧
       a.lastVars = (List.range nv).map (fun v => if v ∈ D then some p else (prevRel s v p).map (·.p)) ∧
       a.lastRels = (List.range nv).map (fun v => if v ∈ D then some (op.vars.idxOf v)
         else (prevRel s v p).map (·.relv))
